@@ -340,6 +340,13 @@ class GenExec(Exec):
             q = o.cls.qualname
             if q == WRITER_Q and attr == "string_sanitization_mode":
                 return o.fields["_string_sanitization_mode"]
+            if q == READER_Q and "cdata" in o.fields:
+                if attr == "chunked_reading_mode":
+                    return o.fields["cmode"]
+                if attr == "position":
+                    return o.fields["cpos"]
+                if attr == "remaining":
+                    return simp(z3.Length(o.fields["cdata"].t) - o.fields["cpos"])
             if q == READER_Q:
                 if attr == "chunked_reading_mode":
                     return self.V.CH(o.fields["st"])
@@ -359,6 +366,12 @@ class GenExec(Exec):
                 q = o.cls.qualname
                 if q == WRITER_Q and t.attr == "string_sanitization_mode":
                     o.fields["_string_sanitization_mode"] = self.truth(v) if not is_bool(v) else v
+                    return
+                if q == READER_Q and t.attr == "chunked_reading_mode" and "cdata" in o.fields:
+                    nv = simp(self.truth(v) if not is_bool(v) else v)
+                    if not z3.is_false(nv):
+                        raise Unsupported("chunked reading in round-trip mode")
+                    o.fields["cmode"] = nv
                     return
                 if q == READER_Q and t.attr == "chunked_reading_mode":
                     o.fields["st"] = self.V.setch(self, o.fields["st"], self.truth(v) if not is_bool(v) else v)
@@ -467,6 +480,9 @@ class GenExec(Exec):
                 and fi is not self.current_fi:
             if fi.name == "serialize":
                 return self.nested_serialize(fi.cls.name, args, node)
+            if getattr(self, "rt_mode", False):
+                env = self.bind_args(fi, args, kwargs, fr)
+                return self.inline_call(fi, env, fr)       # the nested class's real emitted deserialize
             return self.nested_deserialize(fi.cls.name, args, node)
         if fi.name == "__init__" and fi.cls is not None and fi.cls.name in self.decls:
             env = self.bind_args(fi, args, kwargs, fr)
@@ -567,9 +583,37 @@ class GenExec(Exec):
         raise PyExc("SerializationError" if k == 1 else "ValueError", node)
 
     # reader ------------------------------------------------------------
+    def concrete_reader_call(self, name, o, args, node):
+        """RT mode (C01, fixed-size classes): the reader is concrete-structured - data is a z3
+        sequence of interpreted bytes, position an integer, never chunked; the operations are the C05
+        contracts instantiated for non-chunked mode (TAKE = min(k, len - pos), value = DEC of the slice)."""
+        data, pos = o.fields["cdata"].t, o.fields["cpos"]
+        rem = z3.Length(data) - pos
+        width = {"get_byte": 0, "get_char": 1, "get_short": 2, "get_three": 3, "get_int": 4}
+        if name not in width:
+            raise Unsupported(f"reader method {name} in round-trip mode")
+        w = width[name]
+        if w == 0:
+            val = z3.If(rem > 0, data[pos], I(0))
+            o.fields["cpos"] = simp(pos + z3.If(rem > 0, I(1), I(0)))
+            return simp(val)
+        take = z3.If(rem < w, z3.If(rem < 0, I(0), rem), I(w))
+        total = I(0)
+        alive = z3.BoolVal(True)
+        mult = 1
+        for i in range(w):
+            b = data[pos + i]
+            alive = z3.And(alive, i < take, b != 0xFE)
+            total = total + z3.If(alive, (b - 1) * mult, I(0))
+            mult *= 253
+        o.fields["cpos"] = simp(pos + take)
+        return simp(total)
+
     def reader_call(self, name, r, args, node):
         o = self.obj(r)
         V = self.V
+        if "cdata" in o.fields:
+            return self.concrete_reader_call(name, o, args, node)
         st = o.fields["st"]
         self.maybe_fail("reader", node)
         width = {"get_byte": 0, "get_char": 1, "get_short": 2, "get_three": 3, "get_int": 4}
